@@ -27,7 +27,7 @@ var (
 			"proxy re-lists everything on every poll), with generated gaps, fetch/upload/backend delays so that re-listing overlaps "+
 			"every phase; oracle = counting backend (invocations per token) and uploads per ID; non-trivial = some ID listed at least "+
 			"twice; distinct = SHA-256 of the canonical case"+
-			" Later additions: empty list replies; requests whose first three response uploads are ended without an answer and which are then listed again (forwarded exactly once all the same).")
+			" Later additions: empty list replies; requests whose first three response uploads are ended without an answer and which are then listed again (forwarded exactly once all the same); ids listed once more after their response was uploaded, also for a request that was named in every list reply while 1000 others came and went.")
 	recB = vh.NewRecorder("C04", "server-pollers",
 		"1-16 concurrent long-pollers against the stand-alone proxy binary while 1-40 clients arrive with generated gaps; oracle = the "+
 			"multiset of IDs over all list replies has no duplicate and exactly one entry per client, fetching each yields distinct "+
@@ -49,6 +49,9 @@ type CaseA struct {
 	// FailUploads: requests (indices) whose first three response uploads are ended by the proxy without an answer
 	// (the agent gives up after three attempts); the proxy keeps listing such a request, as the App Engine proxy does.
 	FailUploads []int `json:"fail_uploads,omitempty"`
+	// FinalRelist: requests (indices) that the proxy lists once more after every response has been uploaded (a list
+	// reply that was computed before the response arrived, as the App Engine proxy's polls can produce)
+	FinalRelist []int `json:"final_relist,omitempty"`
 }
 
 func genCaseA(t *rapid.T) CaseA {
@@ -75,7 +78,7 @@ func genCaseA(t *rapid.T) CaseA {
 		c.FetchDelayMs, c.UploadDelay, c.BackendMs = []int{0}, []int{0}, []int{0}
 		return c
 	}
-	if kind == 1 && rapid.IntRange(0, 2).Draw(t, "outstanding") == 0 {
+	if kind == 1 && rapid.IntRange(0, 1).Draw(t, "outstanding") == 0 {
 		// one request stays at the backend for a long time while more than 1000 other requests come and go (never more
 		// than about a hundred outstanding at once); then the proxy, which still has no response for it, lists it again
 		extra := rapid.SampledFrom([]int{1001, 1050}).Draw(t, "others")
@@ -93,6 +96,15 @@ func genCaseA(t *rapid.T) CaseA {
 		c.FetchDelayMs, c.UploadDelay = []int{0}, []int{0}
 		c.BackendMs = make([]int, c.N)
 		c.BackendMs[0] = 8000
+		if rapid.Bool().Draw(t, "relistThroughout") {
+			// the proxy names the outstanding request in every list reply (as the App Engine proxy does), so it is among the
+			// most recently reported ids all the time; it is listed once more after its response has been uploaded
+			for i := 1; i < len(c.Replies)-2; i++ {
+				c.Replies[i] = append([]int{0}, c.Replies[i]...)
+			}
+			c.BackendMs[0] = 4000
+			c.FinalRelist = []int{0}
+		}
 		return c
 	}
 	c.N = rapid.IntRange(1, 40).Draw(t, "n")
@@ -115,6 +127,9 @@ func genCaseA(t *rapid.T) CaseA {
 	c.FetchDelayMs = rapid.SliceOfN(rapid.SampledFrom(delays), 1, 5).Draw(t, "fetchDelay")
 	c.UploadDelay = rapid.SliceOfN(rapid.SampledFrom(delays), 1, 5).Draw(t, "uploadDelay")
 	c.BackendMs = rapid.SliceOfN(rapid.SampledFrom(delays), 1, 5).Draw(t, "backendMs")
+	if rapid.IntRange(0, 2).Draw(t, "finalRelist") == 0 {
+		c.FinalRelist = rapid.SliceOfNDistinct(rapid.IntRange(0, c.N-1), 1, 4, func(i int) int { return i }).Draw(t, "finalRelistIdx")
+	}
 	if rapid.IntRange(0, 3).Draw(t, "uploadFaults") == 0 {
 		c.FailUploads = rapid.SliceOfNDistinct(rapid.IntRange(0, c.N-1), 1, 3, func(i int) int { return i }).Draw(t, "failUploads")
 	}
@@ -338,6 +353,25 @@ func runCaseA(t vh.TB, c *CaseA) vh.Outcome {
 				i, ids[i], listed[i], reqs[i].FetchCount(), r.count(toks[i]))
 			o.TimedOut = true
 			return o
+		}
+	}
+	if len(c.FinalRelist) > 0 {
+		var again []string
+		for _, ix := range c.FinalRelist {
+			if ix >= 0 && ix < c.N && listed[ix] > 0 && !faulty[ids[ix]] {
+				again = append(again, ids[ix])
+				listed[ix]++
+			}
+		}
+		if len(again) > 0 {
+			o.Classes = append(o.Classes, "id-listed-again-after-its-response-was-uploaded")
+			for k := 0; k < 2; k++ {
+				r.fp.List(again...)
+				for deadline := time.Now().Add(20 * time.Second); r.fp.QueueLen() > 0 && time.Now().Before(deadline); time.Sleep(time.Millisecond) {
+				}
+				time.Sleep(50 * time.Millisecond)
+			}
+			time.Sleep(200 * time.Millisecond)
 		}
 	}
 	// settle: give duplicates a chance to show up
